@@ -308,9 +308,15 @@ class Pipeline:
 
         """
         if old is None:
-            self.drop(output_name=new.output_name)
+            old = self.output_to_func[new.output_name]
+        if old in self.functions:
+            # Not `drop`, which validates: the pipeline without `old` is an intermediate state
+            # that need not be valid (the consumers of `old` may, e.g., declare different defaults
+            # for its output)
+            self.functions.remove(old)
+            self._clear_internal_cache()
         else:
-            self.drop(f=old)
+            self.drop(f=old)  # raises the error that explains why `old` is not in the pipeline
         self.add(new)
         self._clear_internal_cache()
         self._validate()
